@@ -276,15 +276,21 @@ func checkC05(c *core.Ctx) []core.Floor {
 		if r.Chance(1, 8) {
 			rows = 0
 		}
-		ct, ins := g.StdTable("t1", rows)
+		// the table is 2-5 columns wide (u and a always there)
+		drop := [][]string{nil, nil, {"b"}, {"s", "f"}, {"b", "s"}, {"b", "s", "f"}, {"f"}}[r.Intn(7)]
+		ct, ins := g.ShapedTable("t1", rows, drop)
 		sc.setup = []*proto.Stmt{ct}
 		if rows > 0 {
 			sc.setup = append(sc.setup, ins)
 		}
 		applyAll(m, sc.setup)
 		t := m.Table("t1")
+		c.Count(fmt.Sprintf("tables_of_%d_columns", len(t.Cols)), 1)
 		for k := 0; k < 40; k++ {
 			q := g.Select5(t)
+			if !q.Star && len(q.Items) > len(t.Cols) {
+				c.Count("select_lists_longer_than_the_table_is_wide", 1)
+			}
 			sc.queries = append(sc.queries, q)
 			sc.texts = append(sc.texts, model.RenderN(q, randStyle(r)))
 			sc.tags = append(sc.tags, clauseTag(q))
@@ -293,7 +299,7 @@ func checkC05(c *core.Ctx) []core.Floor {
 		// an alias that is the name of another column of the table: WHERE
 		// (which sees the table's column) pins that column to a literal, ORDER
 		// BY (which sees the alias) sorts by the aliased column
-		for k := 0; k < 3; k++ {
+		for k := 0; k < 3 && len(t.Cols) == 5; k++ {
 			shadowed := []string{"a", "s", "f", "b"}[r.Intn(4)]
 			typ := map[string]string{"a": "int", "s": "varchar", "f": "boolean", "b": "bigint"}[shadowed]
 			src := []string{"u", "u", "a", "s", "b"}[r.Intn(5)]
@@ -320,7 +326,7 @@ func checkC05(c *core.Ctx) []core.Floor {
 		}
 		// queries that differ from one another only in the blanks inside a
 		// string literal, written identically otherwise, one after the other
-		if i%4 == 0 {
+		if i%4 == 0 && len(t.Cols) == 5 {
 			for _, w := range []string{"a b", "a  b", " a b", "a b", "ab"} {
 				q := &proto.NStmt{Kind: "select", From: []proto.NTable{{Name: "t1"}}, Where: &proto.Cond{Op: []string{"=", "!="}[i/4%2], LHS: model.ColOp("s"), RHS: model.LitOp(proto.Str(w))},
 					Items:   []proto.NItem{{Kind: "expr", Expr: &proto.Cond{Op: "val", LHS: model.ColOp("u")}}, {Kind: "expr", Expr: &proto.Cond{Op: "val", LHS: model.LitOp(proto.Str(w))}, Alias: "tag"}},
@@ -334,7 +340,7 @@ func checkC05(c *core.Ctx) []core.Floor {
 		}
 		runSQLCase(c, "C05", drv, i, sc, m)
 	})
-	return []core.Floor{{Key: "whitespace_twin_queries", Min: 50}, {Key: "queries", Min: 2000}, {Key: "results_equal_to_reference", Min: 1000}, {Key: "boolean_shapes_enumerated", Min: 45}}
+	return []core.Floor{{Key: "select_lists_longer_than_the_table_is_wide", Min: 50}, {Key: "whitespace_twin_queries", Min: 30}, {Key: "queries", Min: 2000}, {Key: "results_equal_to_reference", Min: 1000}, {Key: "boolean_shapes_enumerated", Min: 45}}
 }
 
 // ---------- C06 ----------
